@@ -122,7 +122,11 @@ def run_dialect(d, L, M):
             if len(roles) == 1 or (roles <= {"and", "but"}):
                 kws[t] = k
                 break
-    kws["Unknown"] = "* "
+    # a keyword listed in more than one category (as '* ' usually is) has type Unknown
+    for k, _ in dialects.step_keywords(spec):
+        if len({dialects.CATEGORY_TYPE[r] for kk, r in dialects.step_keywords(spec) if kk == k}) > 1:
+            kws["Unknown"] = k
+            break
     types = list(kws)
     hdr = [] if d == "en" else ["# language: " + d]
     f = spec["feature"][0]
@@ -149,7 +153,10 @@ def run_dialect(d, L, M):
                     k = int(o.idgen.get_next_id())
                     got = pc.compare(o.ast, "u", k, ID, M, {"kind": "text", "text": text})
                     if got:
-                        want = expected([t.rstrip("2") for t in seq])
+                        # the statement's reading of each line: first listed keyword that prefixes it
+                        # (e.g. ht: 'Le ' (when) prefixes 'Le sa a ' (then))
+                        read = [dialects.expected_step(spec, kws[t] + ("b" if n_ < nbg else "s"))[1] for n_, t in enumerate(seq)]
+                        want = expected(read)
                         M.count("sequences_checked")
                         have = [s.get("type") for s in got[0]["steps"]]
                         if have != want:
